@@ -787,21 +787,54 @@ def _symbols(e):
     return _SYMS[key][1]
 
 
-def _slice(constraints, goal_syms):
+class SliceIndex:
+    """symbol -> constraints index for cone-of-influence slicing (built once per constraint list, extended lazily)"""
+
+    def __init__(self):
+        self.items = []  # (constraint, symbols)
+        self.by_sym = {}
+        self.nosym = []
+        self.ids = set()
+
+    def add(self, c):
+        i = c.get_id()
+        if i in self.ids:
+            return
+        self.ids.add(i)
+        ss = _symbols(c)
+        k = len(self.items)
+        self.items.append((c, ss))
+        if not ss:
+            self.nosym.append(k)
+        for sname in ss:
+            self.by_sym.setdefault(sname, []).append(k)
+
+    def cone(self, goal_syms):
+        chosen = set(self.nosym)
+        seen = set()
+        stack = list(goal_syms)
+        while stack:
+            sname = stack.pop()
+            if sname in seen:
+                continue
+            seen.add(sname)
+            for k in self.by_sym.get(sname, ()):
+                if k not in chosen:
+                    chosen.add(k)
+                    for s2 in self.items[k][1]:
+                        if s2 not in seen:
+                            stack.append(s2)
+        inside = [self.items[k][0] for k in sorted(chosen)]
+        outside = [self.items[k][0] for k in range(len(self.items)) if k not in chosen]
+        return inside, outside
+
+
+def _slice(constraints, goal_syms, index=None):
     """cone of influence: the constraints transitively sharing a symbol with the goal"""
-    info = [(c, _symbols(c)) for c in constraints]
-    syms = set(goal_syms)
-    chosen = [False] * len(info)
-    changed = True
-    while changed:
-        changed = False
-        for k, (c, ss) in enumerate(info):
-            if not chosen[k] and (ss & syms or not ss):
-                chosen[k] = True
-                if not ss <= syms:
-                    syms |= ss
-                    changed = True
-    return [c for k, (c, _) in enumerate(info) if chosen[k]], [c for k, (c, _) in enumerate(info) if not chosen[k]]
+    idx = SliceIndex() if index is None else index
+    for c in constraints:
+        idx.add(c)
+    return idx.cone(goal_syms)
 
 
 class MultiModel:
@@ -844,15 +877,6 @@ def abstract_uf(goal):
 def _strategies(goal, timeout_ms, want_model=True):
     """returns (result, model, seconds, backend); several attempts because z3 is not robust on UF+NRA"""
     total = 0.0
-    abstr = abstract_uf(goal)
-    if abstr is not None:
-        try:
-            r, m, dt = _solve(abstr, max(2000, timeout_ms // 4), tactic="qfnra-nlsat")
-            total += dt
-            if r == z3.unsat:
-                return r, None, total, "z3-nlsat(uf-abstracted)"
-        except z3.Z3Exception:
-            pass
     try:
         r, m, dt = _solve(goal, max(2000, timeout_ms // 4), tactic="qfnra-nlsat")
         total += dt
@@ -870,13 +894,32 @@ def _strategies(goal, timeout_ms, want_model=True):
         total += time.time() - t
         if r != z3.unknown:
             return r, (s.model() if r == z3.sat else None), total, "z3"
+    # last resort: drop functional consistency of the uninterpreted functions and let nlsat decide the rest
+    if len(goal) <= 400:
+        abstr = abstract_uf(goal)
+        if abstr is not None:
+            try:
+                r, m, dt = _solve(abstr, max(2000, timeout_ms // 2), tactic="qfnra-nlsat")
+                total += dt
+                if r == z3.unsat:
+                    return r, None, total, "z3-nlsat(uf-abstracted)"
+            except z3.Z3Exception:
+                pass
     return z3.unknown, None, total, "z3"
 
 
 def discharge(eng, path, obligations, *, timeout_ms=20000, hints=(), use_cvc5=True):
     """Try to prove each obligation on `path`.  Returns list[Verdict]."""
     out = []
-    base = list(path["pc"]) + list(eng.axioms) + list(hints)
+    # index of the engine's axioms is kept across paths (they only grow); path condition and hints are added on top
+    ax_index = eng.__dict__.get("_ax_index")
+    if ax_index is None:
+        ax_index = eng.__dict__["_ax_index"] = SliceIndex()
+    for a in eng.axioms[len(ax_index.items):] if len(ax_index.items) <= len(eng.axioms) else eng.axioms:
+        ax_index.add(a)
+    local = SliceIndex()
+    for c in list(path["pc"]) + list(hints):
+        local.add(c)
     for name, f in obligations:
         if isinstance(f, SB):
             f = f.e
@@ -887,7 +930,21 @@ def discharge(eng, path, obligations, *, timeout_ms=20000, hints=(), use_cvc5=Tr
             out.append(Verdict(name, "unsat", seconds=0.0, formula=f, backend="simplify"))
             continue
         neg = z3.Not(f)
-        inside, outside = _slice(base, _symbols(neg))
+        # alternate between the two indexes until the symbol set is stable
+        syms = set(_symbols(neg))
+        while True:
+            in1, out1 = local.cone(syms)
+            s1 = set(syms)
+            for c in in1:
+                s1 |= _symbols(c)
+            in2, out2 = ax_index.cone(s1)
+            s2 = set(s1)
+            for c in in2:
+                s2 |= _symbols(c)
+            if s2 == syms:
+                break
+            syms = s2
+        inside, outside = in1 + in2, out1 + out2
         goal = inside + [neg]
         r, m, dt, backend = _strategies(goal, timeout_ms)
         if r == z3.unknown and use_cvc5:
